@@ -7,6 +7,7 @@ package wlx
 import (
 	"encoding/json"
 	"fmt"
+	"math/rand"
 	"os"
 	"strconv"
 	"testing"
@@ -94,16 +95,16 @@ func replay(c cfg, b beh) (int, string, string) {
 		}
 		if stp.Act == "WExit" { // the worker already returned inside the previous step; the spec only retires its pc
 			if t := s.Threads[th]; t == nil || !t.Done {
-				return i, "worker alive at WExit", fmt.Sprintf("step %d: the spec says worker %s left the loop, in the real code it is at %q", i, th, s.Threads[th].At)
+				return i, "shape worker alive at WExit", fmt.Sprintf("step %d: the spec says worker %s left the loop, in the real code it is at %q", i, th, s.Threads[th].At)
 			}
 			continue
 		}
 		t := s.Threads[th]
 		if t == nil || t.Done {
-			return i, "not enabled " + stp.Act, fmt.Sprintf("step %d %s%v: the specification takes this step but thread %q does not exist or has finished in the real code", i, stp.Act, stp.Args, th)
+			return i, "shape not enabled " + stp.Act, fmt.Sprintf("step %d %s%v: the specification takes this step but thread %q does not exist or has finished in the real code", i, stp.Act, stp.Args, th)
 		}
 		if err := s.Step(th); err != nil {
-			return i, "stuck " + stp.Act, fmt.Sprintf("step %d %s%v: %v", i, stp.Act, stp.Args, err)
+			return i, "shape stuck " + stp.Act, fmt.Sprintf("step %d %s%v: %v", i, stp.Act, stp.Args, err)
 		}
 		if e := prime(); e != "" {
 			return i, "infra", e
@@ -143,7 +144,13 @@ func replay(c cfg, b beh) (int, string, string) {
 			}
 		}
 		if diff != "" {
-			return i, "state " + stp.Act, fmt.Sprintf("after step %d %s%v the real latch differs from the specification: %s", i, stp.Act, stp.Args, diff)
+			// what a user can observe (pending work, workers started) differing is a violation; the latch word's encoding and
+			// where a thread stands inside maybeBegin / maybeFinish are the code's shape, decided by TestExplore instead
+			key := "state "
+			if work == w.Work && nworkers == w.NW {
+				key = "shape "
+			}
+			return i, key + stp.Act, fmt.Sprintf("after step %d %s%v the real latch differs from the specification: %s", i, stp.Act, stp.Args, diff)
 		}
 	}
 	s.Drain(500)
@@ -175,4 +182,93 @@ func TestReplay(t *testing.T) {
 		}
 	}
 	raw.Emit(map[string]any{"kind": "stat", "behaviours": len(behs), "steps": steps, "violations": nviol})
+}
+
+// TestExplore runs the same system (signallers adding work and calling maybeBegin, workers consuming it and calling
+// maybeFinish) under pseudo-random schedules that are NOT steered by the specification, and checks WorkLoop.tla's
+// invariants on what is observable, whatever the shape of the code between its atomic operations: never two workers
+// inside the loop, and when every thread has finished no signalled work is left unconsumed (no lost wake-up).
+func TestExplore(t *testing.T) {
+	var c cfg
+	bs, err := os.ReadFile(os.Getenv("VERIF_CFG"))
+	if err != nil || json.Unmarshal(bs, &c) != nil {
+		t.Fatal("cfg", err)
+	}
+	n := raw.EnvInt("VERIF_N", 20000)
+	rng := rand.New(rand.NewSource(int64(raw.EnvInt("VERIF_SEED", 1))))
+	nviol, steps := 0, 0
+	for run := 0; run < n; run++ {
+		s := ctl.New()
+		var l workLoop
+		work, inBody, nworkers := 0, 0, 0
+		var spawn func()
+		spawn = func() {
+			nworkers++
+			s.Go(fmt.Sprintf("w%d", nworkers), func() {
+				inBody++
+				for again := true; again; {
+					s.Yield("body")
+					work = 0
+					again = l.maybeFinish(false)
+				}
+				inBody--
+			})
+		}
+		for _, sg := range c.Sig {
+			s.Go(sg, func() {
+				for k := 0; k < c.MaxSig; k++ {
+					s.Yield("add")
+					work++
+					if l.maybeBegin() {
+						spawn()
+					}
+				}
+			})
+		}
+		var sched []string
+		bad, what := "", ""
+		for len(sched) < 400 {
+			alive := s.Alive()
+			if len(alive) == 0 {
+				break
+			}
+			// a bias towards staying on one thread makes long uninterrupted runs as likely as fine interleavings
+			th := alive[rng.Intn(len(alive))]
+			if len(sched) > 0 && rng.Intn(3) == 0 {
+				for _, a := range alive {
+					if a == sched[len(sched)-1] {
+						th = a
+					}
+				}
+			}
+			sched = append(sched, th)
+			if err := s.Step(th); err != nil {
+				bad, what = "infra", err.Error()
+				break
+			}
+			if len(s.Errors) > 0 {
+				bad, what = "infra", fmt.Sprint(s.Errors)
+				break
+			}
+			if inBody > 1 {
+				bad, what = "two workers", fmt.Sprintf("%d workers are inside the loop at once", inBody)
+				break
+			}
+		}
+		steps += len(sched)
+		if bad == "" && len(s.Alive()) != 0 {
+			bad, what = "no termination", fmt.Sprintf("threads %v still running after %d steps", s.Alive(), len(sched))
+		}
+		if bad == "" && work != 0 {
+			bad, what = "lost wakeup", fmt.Sprintf("every thread has finished, the latch word is %d, and %d unit(s) of signalled work were never consumed: no worker is running and none will be started", l.state.Peek(), work)
+		}
+		if bad != "" {
+			s.Drain(500)
+			nviol++
+			if nviol <= 5 {
+				raw.Emit(map[string]any{"kind": "viol", "key": bad, "what": fmt.Sprintf("%s; schedule (thread taking each step) %v", what, sched), "schedule": sched, "case": -1, "step": len(sched)})
+			}
+		}
+	}
+	raw.Emit(map[string]any{"kind": "stat", "schedules": n, "steps": steps, "violations": nviol})
 }
